@@ -27,7 +27,9 @@ theorem C08_callbacks_run_at_once (P : Prog) (c0 c : Cfg) (h0 : Started c0) (hr 
 * `show` — `drawScreen top`: `top.screen.show_all()`;
 * `prompt` — an input request `getInput scr arg`;
 * `input` — `process_input` of `scr` for a received line, with the arguments of its last request;
-* `closed` — `close_screen` popping entry `e`: `e.screen.closed()`. No other instruction — in
+* `closed` — `close_screen(frm)` popping entry `e`: `e.screen.closed()`, and the request was made either
+  without a requester (`frm = none`) or on behalf of that very screen (a refused request — `frm` names
+  another screen — pops nothing and notifies nobody: `C08_close_refused`). No other instruction — in
   particular neither `replace_screen` nor the discarding of a failed screen — invokes `closed`. -/
 theorem C08_who_calls (P : Prog) (c0 c c' : Cfg) (h0 : Started c0) (hr : Reach P c0 c) (h : StepTo P c c')
     (scr : Nat) (cb : Cb) (arg : Option Nat) (key : Option Str)
@@ -40,7 +42,7 @@ theorem C08_who_calls (P : Prog) (c0 c c' : Cfg) (h0 : Started c0) (hr : Reach P
     | .prompt => ∃ rest, c.code = .getInput scr arg :: rest ∧ key = none
     | .input => ∃ k rest, c.code = .processInput scr k :: rest ∧ arg = (c.A.scr scr).inputArgs ∧ key = some k
     | .closed => ∃ frm e rest, c.code = .closeScreen frm :: rest ∧ c.A.stack.getLast? = some e ∧
-        scr = e.screen ∧ arg = none ∧ key = none :=
+        (frm = none ∨ frm = some (.scr e.screen)) ∧ scr = e.screen ∧ arg = none ∧ key = none :=
   who_calls h0 hr h hh
 
 /-- a log entry of a callback is written by the step of its `callScr` instruction and by nothing else -/
@@ -207,14 +209,27 @@ theorem C08_closed_once (P : Prog) (c0 c : Cfg) (h0 : Started c0) (hr : Reach P 
     (c.log.filter Ev.isClosed).length + pendClosed c.code = (c.tr.filter (Tr.isOp "close")).length :=
   hr.closedInv h0
 
-/-- the `close_screen` step: pops the top `e`, traces the operation, and pushes exactly the `closed`
-callback of `e.screen` followed by the rest of `close_screen` for `e` -/
+/-- the `close_screen(frm)` step when the request is accepted — no requester given, or the requester is
+the screen on top: pops the top `e`, traces the operation, and pushes exactly the `closed` callback of
+`e.screen` followed by the rest of `close_screen` for `e`. (Since `close_screen` checks `closed_from`
+against the top *before* popping, the hypothesis `hacc` is needed: see `C08_close_refused` for the
+other case.) -/
 theorem C08_close_step (P : Prog) (c : Cfg) (frm : Option Src) (e : Entry) (rest : List Instr)
-    (hc : c.code = .closeScreen frm :: rest) (he : c.A.stack.getLast? = some e) :
+    (hc : c.code = .closeScreen frm :: rest) (he : c.A.stack.getLast? = some e)
+    (hacc : frm = none ∨ frm = some (.scr e.screen)) :
     ∃ c', step P c = .ok c' ∧
       c'.code = .callScr e.screen .closed none none :: .closeScreen2 e frm :: rest ∧
       c'.A.stack = c.A.stack.dropLast ∧ c'.tr = .stackOp "close" c.A.stack.dropLast :: c.tr ∧ c'.log = c.log :=
-  close_step_eq P c frm e rest hc he
+  close_step_eq P c frm e rest hc he hacc
+
+/-- the `close_screen(frm)` step when `frm` names anything but the screen on top: `RenderUnexpectedError`
+is raised at once — nothing is popped and no `closed` callback is pushed (what raising does to the rest
+of the configuration: `C04_refused_close_keeps_stack`) -/
+theorem C08_close_refused (P : Prog) (c : Cfg) (frm : Option Src) (e : Entry) (rest : List Instr)
+    (hc : c.code = .closeScreen frm :: rest) (he : c.A.stack.getLast? = some e)
+    (hrf : frm ≠ none ∧ frm ≠ some (.scr e.screen)) :
+    step P c = ({ c with code := rest } : Cfg).raise .err :=
+  close_step_refused P c frm e rest hc he hrf
 
 open Ex in
 /-- two closes (a modal dialog, then the screen): two `closed` callbacks, for the popped screens, in order -/
